@@ -13,7 +13,7 @@ PROPS = {
         'assumptions': [
             'primaries are uninterpreted functions prim_sem(id, entry, io); their own semantics is decided by the units of C03/C07-C10/C12-C17',
             'Matcher::into_box (R6) preserves ast(); Iterator::any (R9) is the existential over the vector',
-            'impl Matcher for Box<dyn Matcher> forwards to the boxed value (5 one-line methods, not extracted)',
+            'impl Matcher for Box<dyn Matcher> (unit boxfwd, four bodies verbatim): matches, has_side_effects, finished_dir and finished have exactly the effect of the boxed matcher (trait.box.*); into_box (returns self) is not extracted (R6)',
         ],
         'not_decided': [],
     },
